@@ -317,6 +317,8 @@ func init() {
 	reg("reflect.MakeSlice", func(fr *frame, fn *ssa.Function, args []value) value {
 		in := fr.in
 		t := typeOfArg(args[0])
+		in.guardAlloc(args[1])
+		in.guardAlloc(args[2])
 		n := in.concreteInt(args[1], "reflect.MakeSlice len")
 		c := in.concreteInt(args[2], "reflect.MakeSlice cap")
 		if n < 0 || c < n {
